@@ -293,11 +293,15 @@ NOINST static int exec_main_step(int argc, char **argv, FILE *f) {
 		return 0;
 	}
 	if (!strcmp(op, "start_serial") && argc >= 4) {
+		/* start_serial <device> <config dir> <flush interval>: device "/dev/simbus" is the simulated bus (see mon.c). Logged like the other start
+		 * function (field via), so that every oracle that looks for "the start of a session" sees it */
+		const char *dev = !strcmp(argv[1], "@null") ? NULL : argv[1], *dir = !strcmp(argv[2], "@null") ? NULL : argv[2];
 		hx_curcall = "bidib_start_serial";
-		ev("\"e\":\"call\",\"f\":\"bidib_start_serial\"");
-		int rc = bidib_start_serial(!strcmp(argv[1], "@null") ? NULL : argv[1], !strcmp(argv[2], "@null") ? NULL : argv[2], (unsigned)atoi(argv[3]));
-		ev("\"e\":\"ret\",\"f\":\"bidib_start_serial\",\"r\":%d,\"live_threads\":%d", rc, mon_live_lib_threads());
+		ev("\"e\":\"call\",\"f\":\"bidib_start_pointer\",\"via\":\"serial\",\"dir\":\"%s\",\"fi\":%d,\"heap\":%zu", dir ? dir : "@null", atoi(argv[3]), heap_bytes());
+		int rc = bidib_start_serial(dev, dir, (unsigned)atoi(argv[3]));
+		ev("\"e\":\"ret\",\"f\":\"bidib_start_pointer\",\"via\":\"serial\",\"r\":%d,\"live_threads\":%d,\"heap\":%zu,\"vt\":%lld", rc, mon_live_lib_threads(), heap_bytes(), (long long)vt_usec);
 		check_balance("bidib_start_serial"); hx_curcall = "-";
+		if (rc == 0) { session_running = 1; mon_armed = 1; lib_down = 0; } else if (mon_live_lib_threads() == 0) lib_down = 1;
 		return 0;
 	}
 	if (!strcmp(op, "stop")) {
